@@ -442,7 +442,23 @@ func c08AllZero(r *core.Run, login *ssa.Function) {
 	key := "Login: all-zero capability mask test"
 	// find an If whose condition is a bool φ located at (or after) an inner loop header, whose true edge returns an error
 	found := false
-	for _, b := range login.Blocks {
+	// Login itself, and helpers it calls with a *CapabilityPackage argument (their error results are covered by R08.3)
+	var blocks []*ssa.BasicBlock
+	blocks = append(blocks, login.Blocks...)
+	seenH := map[*ssa.Function]bool{login: true}
+	for _, c := range core.Calls(login) {
+		h := core.StaticCallee(c)
+		if h == nil || seenH[h] || !core.InModule(h) || len(h.Blocks) == 0 {
+			continue
+		}
+		for _, a := range c.Common().Args {
+			if types.Identical(a.Type(), ptrTo(r.Prog, "CapabilityPackage")) && h.Signature.Results().Len() > 0 && core.IsErrorType(h.Signature.Results().At(h.Signature.Results().Len()-1).Type()) {
+				seenH[h] = true
+				blocks = append(blocks, h.Blocks...)
+			}
+		}
+	}
+	for _, b := range blocks {
 		iff, ok := b.Instrs[len(b.Instrs)-1].(*ssa.If)
 		if !ok {
 			continue
